@@ -152,6 +152,11 @@ class Engine(GenericConcreteEngine[Callable[..., Any]]):
                 else:
                     upstream, done, messages = target.engine.backtrack_unary(operation, target, preferred)
                     return (transfer.reapply(upstream), done, messages)
+            case MarkerRelation():
+                # Other markers (including user-defined ones) say something
+                # about the exact relation they wrap, so nothing is inserted
+                # upstream of them.
+                return tree, False, (f"backtracking through marker relation {tree} is not implemented",)
         raise NotImplementedError(f"Unsupported relation type {tree} for engine {self}.")
 
     def execute(self, relation: Relation) -> RowIterable:
